@@ -9,6 +9,9 @@ import EvoModel.Gen.Formats
 import EvoModel.Lemmas.F64
 import EvoModel.Lemmas.TextFormats
 import EvoModel.Lemmas.Json
+import EvoModel.Lemmas.Bag
+import EvoModel.Lemmas.Containers
+import EvoModel.Gen.DfColumns
 import EvoModel.Props.C07
 namespace Evo.C06
 open Evo Evo.Text Evo.F64
@@ -51,13 +54,11 @@ theorem rne_nearest (y r : ℚ) (h : F64.rne y = some r) : IsNearestF64 y r := F
 
 /-- text → double: every rational within 2⁻⁵⁵ (relative) of a binary64 value `x` is rounded to
 exactly `x` by the model's `rne` — no overflow, subnormals and the largest double included. -/
-theorem rne_roundtrip_of_close (x y : ℚ) (hx : IsF64 x) (hc : Close x y) : F64.rne y = some x := by
-  obtain ⟨r, hr⟩ := Option.isSome_iff_exists.mp (F64.rne_isSome_of_close x y hx hc)
-  rw [hr, nearest_of_close hx hc (F64.rne_nearest y r hr)]
+theorem rne_roundtrip_of_close (x y : ℚ) (hx : IsF64 x) (hc : Close x y) : F64.rne y = some x :=
+  F64.rne_eq_of_close x y hx hc
 
 /-- `rne` is the identity on binary64 values -/
-theorem rne_id_on_f64 (x : ℚ) (hx : IsF64 x) : F64.rne x = some x :=
-  rne_roundtrip_of_close x x hx (by unfold Close; simp; positivity)
+theorem rne_id_on_f64 (x : ℚ) (hx : IsF64 x) : F64.rne x = some x := F64.rne_id x hx
 
 theorem goodTok_of_tokenOK (tok : Rat → Str) (x : Rat) (h : TokenOK tok x) : GoodTok tok x := by
   obtain ⟨hx, hg, y, hy, hc⟩ := h
@@ -90,30 +91,69 @@ theorem json_number_roundtrip (tok : Str) (x y : ℚ) (hx : IsF64 x) (hp : parse
     (hc : Text.close x y = true) : (parseDec tok).bind F64.rne = some x := by
   rw [hp]; exact rne_roundtrip_of_close x y hx ((close_sound x y).mp hc)
 
-/-- `_partial` (of `bag_stamp_error`): whole-second stamps `0 ≤ k < 2⁵³` pass through the
-`sec/nanosec` split and the reassembly `sec + nanosec·1e-9` exactly.  The bound `|x' − x| ≤ 1 ns`
-for all stamps is not proved: it is validated on every generated stamp by each run. -/
-theorem bag_stamp_error_partial (k : ℕ) (hk : k < 2 ^ 53) :
-    bagSplit (k : ℚ) = some ((k : ℤ), 0) ∧ bagJoin (k : ℤ) 0 = some (k : ℚ) := by
-  have hid : F64.rne (k : ℚ) = some (k : ℚ) :=
-    rne_id_on_f64 _ ⟨(k : ℤ), 0, by rw [abs_of_nonneg (by positivity)]; exact_mod_cast hk, by norm_num, by norm_num, by simp⟩
+/-- **ROS1 bag stamps, all stamps.**  For every binary64 stamp `0 ≤ x < 2³¹`:
+`write_bag_trajectory` (evo) stores `sec = ⌊x⌋` (`int(stamp // 1)`) and
+`nanosec = ⌊rne((x − sec)·10⁹)⌋` with `0 ≤ nanosec ≤ 10⁹` — `x − sec` is exact in binary64
+(`F64.isF64_fract`), `int()` truncates a non-negative value; rosbags stores and returns the two
+unsigned integers unchanged; `read_bag_trajectory` (evo) computes
+`x' = rne(sec + rne(nanosec · rne(10⁻⁹)))`.  Then `x'` is a binary64 value with
+`|x' − x| ≤ 1 ns + x·2⁻⁵³ + 2⁻⁵⁰` **and** `|x' − x| ≤ 2 ns + 2⁻⁴⁹`. -/
+theorem bag_stamp_error (x : ℚ) (hx : IsF64 x) (h0 : 0 ≤ x) (h31 : x < 2 ^ 31) :
+    ∃ (ns : ℤ) (x' : ℚ), bagSplit x = some (⌊x⌋, ns) ∧ 0 ≤ ns ∧ ns ≤ 10 ^ 9 ∧
+      bagJoin ⌊x⌋ ns = some x' ∧ IsF64 x' ∧
+      |x' - x| ≤ 1 / 10 ^ 9 + x / 2 ^ 53 + 1 / 2 ^ 50 ∧ |x' - x| ≤ 2 / 10 ^ 9 + 1 / 2 ^ 49 :=
+  F64.bag_roundtrip x hx h0 h31
+
+/-- Stamps whose binary64 spacing `2^e` satisfies `2^(e−1) > 2 ns + 2⁻⁴⁹` (every stamp
+`≥ 2²⁵ s`, UNIX-epoch stamps in particular) come back **identical**. -/
+theorem bag_stamp_exact_of_coarse (m e : ℤ) (hm : 2 ^ 52 ≤ m) (hm' : m < 2 ^ 53) (he1 : -1074 ≤ e)
+    (he2 : e ≤ 971) (h31 : (m : ℚ) * (2 : ℚ) ^ e < 2 ^ 31)
+    (hgap : 2 / 10 ^ 9 + 1 / 2 ^ 49 < (2 : ℚ) ^ (e - 1)) :
+    ∃ ns : ℤ, bagSplit ((m : ℚ) * (2 : ℚ) ^ e) = some (⌊(m : ℚ) * (2 : ℚ) ^ e⌋, ns) ∧
+      bagJoin ⌊(m : ℚ) * (2 : ℚ) ^ e⌋ ns = some ((m : ℚ) * (2 : ℚ) ^ e) :=
+  F64.bag_exact_of_coarse m e hm hm' he1 he2 h31 hgap
+
+/-- **DataFrame.** With the column table `trajectory_to_df` uses and the column names
+`df_to_trajectory` selects (both regenerated from pandas_bridge.py on every run),
+`df_to_trajectory(trajectory_to_df(t)) = t` for every trajectory and every path: the column ↔ slot
+map is a bijection, the index carries the timestamps, a path keeps its integer index. -/
+theorem df_roundtrip (t : Cont.Traj) :
+    Cont.dfToTrajWith Evo.Gen.dfReaderQuat Evo.Gen.dfReaderPos
+      (Cont.trajToDfWith Evo.Gen.dfWriterSlots t) = some t := by
+  have h1 : Evo.Gen.dfWriterSlots = Cont.stdSlots := by decide
+  have h2 : Evo.Gen.dfReaderQuat = ["qw", "qx", "qy", "qz"] := by decide
+  have h3 : Evo.Gen.dfReaderPos = ["x", "y", "z"] := by decide
+  rw [h1, h2, h3]; exact Cont.df_roundtrip_std t
+
+/-- **Result archive, member layout.**  `load_res_file(save_res_file(r))` returns the info, the
+statistics, every array under its own name in the original order, and — with
+`load_trajectories` — every trajectory under its own name with its own content (TUM members
+first, then KITTI members, each group in the original order; the same finite map), without
+`load_trajectories` none; for all array / trajectory names that are non-empty and contain no `/`
+(`Path(...).stem` would cut those) and any member serialisation `ser` with inverse `de`
+(`tum_roundtrip`, `kitti_roundtrip`). -/
+theorem res_archive_roundtrip {I S A T : Type} (ser : Cont.Kind → T → Str) (de : Cont.Kind → Str → Option T)
+    (hde : ∀ k t, de k (ser k t) = some t) (r : Cont.Res I S A T)
+    (hA : ∀ e ∈ r.arrays, Cont.ValidName e.1) (hAn : (r.arrays.map (·.1)).Nodup)
+    (hT : ∀ e ∈ r.trajs, Cont.ValidName e.1) (hTn : (r.trajs.map (·.1)).Nodup) :
+    Cont.loadRes de true (Cont.saveRes ser r) = some ⟨r.info, r.stats, r.arrays,
+      (r.trajs.filter fun e => e.2.1 = .tum) ++ (r.trajs.filter fun e => e.2.1 = .kitti)⟩ ∧
+    Cont.loadRes de false (Cont.saveRes ser r) = some ⟨r.info, r.stats, r.arrays, []⟩ ∧
+    (∀ e, e ∈ (r.trajs.filter fun e => e.2.1 = .tum) ++ (r.trajs.filter fun e => e.2.1 = .kitti) ↔ e ∈ r.trajs) := by
+  obtain ⟨h1, h2⟩ := Cont.res_roundtrip ser de hde r hA hAn hT hTn
+  refine ⟨h1, h2, fun e => ?_⟩
+  simp only [List.mem_append, List.mem_filter, decide_eq_true_eq]
   constructor
-  · unfold bagSplit
-    have hfl : (k : ℚ).floor = (k : ℤ) := by
-      have : ((k : ℤ) : ℚ) = (k : ℚ) := by simp
-      rw [← this]; exact Rat.floor_intCast _
-    simp only [hfl]
-    have : (k : ℚ) - ((k : ℤ) : ℚ) = 0 := by simp
-    rw [this, rne_zero]
-    simp only [zero_mul, rne_zero]
-    have h0 : Rat.floor 0 = 0 := by decide +kernel
-    simp [h0]
-  · unfold bagJoin
-    cases hc : F64.rne (mkRat 1 1000000000) with
-    | none => exact absurd hc (by decide +kernel)
-    | some c =>
-      simp only [Int.cast_zero, zero_mul, rne_zero, add_zero]
-      simpa using hid
+  · rintro (h | h) <;> exact h.1
+  · intro h; cases hk : e.2.1
+    · exact Or.inl ⟨h, rfl⟩
+    · exact Or.inr ⟨h, rfl⟩
+
+/-- archive member names are pairwise different (so `ZipFile.read(name)` is unambiguous) -/
+theorem res_member_names_distinct {I S A T : Type} (ser : Cont.Kind → T → Str) (r : Cont.Res I S A T)
+    (hAn : (r.arrays.map (·.1)).Nodup) (hTn : (r.trajs.map (·.1)).Nodup) :
+    ((Cont.saveRes (I := I) (S := S) ser r).map (·.1)).Nodup := Cont.saveRes_names_nodup ser r hAn hTn
+
 /-! ### non-vacuity -/
 example : IsF64 (3602879701896397 / 36028797018963968) :=
   ⟨3602879701896397, -55, by norm_num, by norm_num, by norm_num, by norm_num⟩
@@ -129,6 +169,19 @@ example : Json.escape "a\"\\\n\x01é😀".toList = "a\\\"\\\\\\n\\u0001\\u00e9\\
 example : losslessFmt "%.18e" = true ∧ losslessFmt "%.9f" = false ∧ losslessFmt "%.8e" = false ∧
     losslessFmt "%.16e" = false ∧ losslessFmt "<dynamic>" = false := by decide +kernel
 example : bagSplit 1500000000 = some (1500000000, 0) ∧ bagJoin 1500000000 0 = some 1500000000 := by decide +kernel
+/-- a long TUM member, a shorter TUM member, a KITTI member; unicode names; names ending in another suffix -/
+example : (Cont.loadRes (I := Unit) (S := Unit) (A := Nat) (T := Str) (fun _ s => some s) true
+      (Cont.saveRes (fun _ t => t) ⟨(), (), [("err".toList, 1), ("x.tum".toList, 2)],
+        [("long é".toList, .tum, "1 2\n3 4\n".toList), ("p.npy".toList, .kitti, "9\n".toList),
+         ("位置".toList, .tum, "5\n".toList)]⟩)).map
+      (fun r => (r.arrays.map (fun e => String.ofList e.1), r.trajs.map (fun e => (String.ofList e.1, String.ofList e.2.2))))
+    = some (["err", "x.tum"], [("long é", "1 2\n3 4\n"), ("位置", "5\n"), ("p.npy", "9\n")]) := by
+  decide +kernel
+/-- a name with `/` is outside the domain: `Path(...).stem` cuts it -/
+example : Cont.stem "dir/x.tum".toList = "x".toList ∧ Cont.stem ".tum".toList = ".tum".toList := by decide +kernel
+example : Cont.dfToTrajWith Evo.Gen.dfReaderQuat Evo.Gen.dfReaderPos (Cont.trajToDfWith Evo.Gen.dfWriterSlots
+    (.timed [10, 11] [⟨1, 2, 3, 4, 5, 6, 7⟩, ⟨8, 9, 10, 11, 12, 13, 14⟩]))
+    = some (.timed [10, 11] [⟨1, 2, 3, 4, 5, 6, 7⟩, ⟨8, 9, 10, 11, 12, 13, 14⟩]) := by decide +kernel
 /-- bag stamps: an epoch stamp with a nanosecond fraction comes back within 1 ns (here: 2⁻²² s off) -/
 example : bagSplit (6291456000517815 / 4194304) = some (1500000000, 123456716) ∧
     bagJoin 1500000000 123456716 = some (6291456000517815 / 4194304) := by decide +kernel
